@@ -136,6 +136,16 @@ def gen(tier, rng):
         else:
             cuts = sorted(set(rng.randint(0, len(stream)) for _ in range(rng.randint(1, 4))))
         cases.append(f"rr\t{mode}\t{hexs(stream)}\t{','.join(map(str, cuts)) or '-'}")
+    # the peer keeps the connection open after a malformed or complete reply: the verdict must not wait for the close
+    held = [b"250 ok\r\n250ok\r\n", b"250ok\r\n", b"650 x\r\n", b"280 x\r\n", b"25 x\r\n", b"hello\r\n", b"250-fine\r\n250_bad\r\n",
+            b"250-a\r\n251 b\r\n", b"250 ok\r\n\r\n", b"250 ok\r\n999 x\r\n", b"2500 x\r\n", b"250\txy\r\n", b"250-a\r\n", b"250 partial",
+            b"250-a\r\n250-b\r\n25"]
+    for st in held:
+        for mode in "sa":
+            cases.append(f"rr\t{mode}\t{hexs(st)}\t-\th")
+    for _ in range(max(4, nrr // 20)):
+        st = rng.choice(held[:9]) if rng.random() < 0.5 else rng.choice([b"250 ok\r\n", b"220-a\r\n220 b\r\n"]) + bytes(rng.choice(b"25 0-xk\r\n") for _ in range(rng.randint(1, 12))) + b"\r\n"
+        cases.append(f"rr\t{rng.choice('sa')}\t{hexs(st)}\t-\th")
     # every split point of one two-reply stream, both clients
     st = b"250-first\r\n250 ok\r\n550 5.1.1 no\r\n"
     for c in range(1, len(st)):
